@@ -1,0 +1,14 @@
+//! Read-only verification hooks (feature `verif-hooks`).
+use super::SampledLFU;
+use alloc::vec::Vec;
+
+impl<K, KH, S> SampledLFU<K, KH, S> {
+    /// (running total, tracked (key hash, cost) pairs in map order, sample size)
+    pub fn verif_dump(&self) -> (i64, Vec<(u64, i64)>, usize) {
+        (
+            self.used,
+            self.key_costs.iter().map(|(k, v)| (*k, *v)).collect(),
+            self.samples,
+        )
+    }
+}
